@@ -11,11 +11,14 @@ PROPS = ('NoRetxAfterAnswer', 'TimersFire', 'HardLimitFixed')
 
 def timer_models(v, tier):
     base = dict(Dpd=3, Life=8, MaxLoss=1 if tier == 'quick' else 2, StartKinds=T.ALL_KINDS, Horizon=45, MaxBusy=0, MaxProbes=0, MaxNoise=0, **T.code_constants())
-    quick_kinds = ('idle', 'newchild', 'delchild', 'newchild_ke', 'rekeyike_ke', 'init_cookie', 'auth')
+    quick_kinds = ('idle', 'newchild', 'delchild', 'rekchild', 'newchild_ke', 'rekeyike_ke', 'init_cookie', 'auth')
     configs = [
         # schedule class (i): the loop sweeps at least once per second -> two-sided spacing, crash bound
-        ('fine', dict(base, Ticks=(1,), SingleSweep=False, MaxBusy=1, MaxProbes=1, MaxNoise=1, StartKinds=quick_kinds if tier == 'quick' else T.ALL_KINDS),
+        ('fine', dict(base, Ticks=(1,), SingleSweep=False, StartKinds=quick_kinds if tier == 'quick' else T.ALL_KINDS, **({} if tier == 'quick' else dict(MaxBusy=1, MaxProbes=1, MaxNoise=1))),
          INV_ALWAYS + ('SpacingFine', 'CrashBound'), 1200 if tier == 'quick' else None, None),
+        # ... with what the peer may do in between: refuse the rekey (busy), probe, and unauthenticated noise (quick tier: from the two commonest starts)
+        ('fine_peer', dict(base, Ticks=(1,), SingleSweep=False, MaxBusy=1, MaxProbes=1, MaxNoise=1, StartKinds=('idle', 'newchild') if tier == 'quick' else ('idle', 'newchild', 'rekchild')),
+         INV_ALWAYS + ('SpacingFine', 'CrashBound'), 900 if tier == 'quick' else None, None),
         # (ii) uniform coarse tick, one sweep per tick -> gaps never shrink
         ('uniform7', dict(base, Ticks=(7,), SingleSweep=True), INV_ALWAYS + ('SpacingUniform',), 600 if tier == 'quick' else None, None),
         ('uniform3', dict(base, Ticks=(3,), SingleSweep=True, MaxBusy=1, MaxProbes=1), INV_ALWAYS + ('SpacingUniform',), 600 if tier == 'quick' else None, None),
